@@ -250,12 +250,297 @@ def rename_params(src_text, qual, suffix='_rp'):
     return ast.unparse(tree)
 
 
+
+# ---------------------------------------------------------------------------------------------- extract-method
+class _Scope(ast.NodeVisitor):
+    """Names read / written by a list of statements in the function's own scope (comprehension and lambda variables are
+    local to their expression)."""
+
+    def __init__(self, strict=True):
+        self.reads, self.writes, self.bad = [], [], False
+        self._shadow = []
+        self.strict = strict
+
+    def visit_AugAssign(self, n):
+        if isinstance(n.target, ast.Name) and not any(n.target.id in sh for sh in self._shadow):
+            self.reads.append(n.target.id)
+        self.generic_visit(n)
+
+    def visit_Name(self, n):
+        if any(n.id in sh for sh in self._shadow):
+            return
+        (self.reads if isinstance(n.ctx, ast.Load) else self.writes).append(n.id)
+
+    def _comp(self, n):
+        bound = set()
+        for g in n.generators:
+            bound |= {x.id for x in ast.walk(g.target) if isinstance(x, ast.Name)}
+        # the first iterable is evaluated in the enclosing scope
+        self.visit(n.generators[0].iter)
+        self._shadow.append(bound)
+        for i, g in enumerate(n.generators):
+            if i:
+                self.visit(g.iter)
+            for c in g.ifs:
+                self.visit(c)
+        if isinstance(n, ast.DictComp):
+            self.visit(n.key)
+            self.visit(n.value)
+        else:
+            self.visit(n.elt)
+        self._shadow.pop()
+    visit_ListComp = visit_SetComp = visit_GeneratorExp = visit_DictComp = _comp
+
+    def visit_Lambda(self, n):
+        a = n.args
+        for d in a.defaults + [d for d in a.kw_defaults if d is not None]:
+            self.visit(d)
+        self._shadow.append({x.arg for x in a.posonlyargs + a.args + a.kwonlyargs + ([a.vararg] if a.vararg else []) + ([a.kwarg] if a.kwarg else [])})
+        self.visit(n.body)
+        self._shadow.pop()
+
+    def generic_visit(self, n):
+        if isinstance(n, (ast.FunctionDef, ast.AsyncFunctionDef, ast.ClassDef, ast.Return, ast.Yield, ast.YieldFrom, ast.Global,
+                          ast.Nonlocal, ast.NamedExpr, ast.Delete, ast.Await, ast.Import, ast.ImportFrom)):
+            self.bad = True
+            if self.strict or isinstance(n, (ast.FunctionDef, ast.AsyncFunctionDef, ast.ClassDef)):
+                if not self.strict:
+                    # a nested function may read anything
+                    self.reads += [x.id for x in ast.walk(n) if isinstance(x, ast.Name)]
+                return
+        if isinstance(n, ast.Call) and isinstance(n.func, ast.Name) and n.func.id in ('super', 'locals', 'vars', 'eval', 'exec') and not n.args:
+            self.bad = True
+        if isinstance(n, ast.Attribute) and n.attr.startswith('__') and not n.attr.endswith('__'):
+            self.bad = True          # private name mangling depends on the enclosing class
+        if isinstance(n, ast.ExceptHandler) and n.name:
+            self.writes.append(n.name)
+        super().generic_visit(n)
+
+
+def _loose_jumps(stmts):
+    """break / continue not enclosed by a loop inside `stmts`"""
+    def rec(n, inloop):
+        if isinstance(n, (ast.Break, ast.Continue)):
+            return not inloop
+        if isinstance(n, (ast.FunctionDef, ast.Lambda, ast.ClassDef)):
+            return False
+        il = inloop or isinstance(n, (ast.For, ast.While))
+        if isinstance(n, (ast.For, ast.While)):
+            return any(rec(c, True) for c in n.body) or any(rec(c, inloop) for c in n.orelse)
+        return any(rec(c, il) for c in ast.iter_child_nodes(n))
+    return any(rec(s_, False) for s_ in stmts)
+
+
+def _definitely_assigned(stmts):
+    out = set()
+    for s_ in stmts:
+        if isinstance(s_, ast.Assign):
+            for t in s_.targets:
+                for x in ([t] if isinstance(t, ast.Name) else t.elts if isinstance(t, (ast.Tuple, ast.List)) else []):
+                    if isinstance(x, ast.Name):
+                        out.add(x.id)
+        elif isinstance(s_, ast.AnnAssign) and s_.value is not None and isinstance(s_.target, ast.Name):
+            out.add(s_.target.id)
+        elif isinstance(s_, ast.If):
+            out |= _definitely_assigned(s_.body) & _definitely_assigned(s_.orelse)
+        elif isinstance(s_, (ast.With,)):
+            out |= _definitely_assigned(s_.body)
+    return out
+
+
+def extract_method(src_text, qual, which):
+    """Extract a window of top-level statements of the function into a new module-level private helper (which = 1, 2, 3
+    selects window size and position).  Behaviour-preserving by construction: every name of the function's scope that the
+    window touches and that is bound before it is passed in, every name it binds that is used afterwards is returned."""
+    tree = ast.parse(src_text)
+    target = _find(tree, qual)
+    if target is None or any(isinstance(n, (ast.Yield, ast.YieldFrom)) for n in ast.walk(target)):
+        return None
+    if target.decorator_list and any(not (isinstance(d, ast.Name) and d.id in ('staticmethod', 'property')) and
+                                     not (isinstance(d, ast.Attribute) and d.attr == 'setter') for d in target.decorator_list):
+        return None
+    body = target.body
+    d0 = 1 if body and isinstance(body[0], ast.Expr) and isinstance(getattr(body[0], 'value', None), ast.Constant) else 0
+    n = len(body) - d0
+    size = which
+    if n < size + 1:
+        return None
+    starts = {1: None, 2: d0 + n // 3, 3: d0 + n // 2}[which]
+    if which == 1:
+        # the largest compound statement
+        cands = sorted(range(d0, len(body)), key=lambda i: -len(ast.unparse(body[i])))
+        order = cands
+    else:
+        order = [starts] + [i for i in range(d0, len(body) - size + 1) if i != starts]
+    a = target.args
+    fparams = [x.arg for x in a.posonlyargs + a.args + a.kwonlyargs] + ([a.vararg.arg] if a.vararg else []) + ([a.kwarg.arg] if a.kwarg else [])
+    for i in order:
+        if i is None or i + size > len(body):
+            continue
+        win = body[i:i + size]
+        sc = _Scope()
+        for s_ in win:
+            sc.visit(s_)
+        if sc.bad or _loose_jumps(win):
+            continue
+        before = _Scope(strict=False)
+        for s_ in body[d0:i]:
+            before.visit(s_)
+        after = _Scope(strict=False)
+        for s_ in body[i + size:]:
+            after.visit(s_)
+        if before.bad and any(isinstance(x, (ast.Global, ast.Nonlocal)) for s_ in body for x in ast.walk(s_)):
+            continue
+        bound_before = set(fparams) | set(before.writes)
+        touched = list(dict.fromkeys(sc.reads + sc.writes))
+        params = [x for x in touched if x in bound_before]
+        outs = [x for x in dict.fromkeys(sc.writes) if x in after.reads or x in after.writes and x in params]
+        outs = [x for x in outs if x in after.reads]
+        da = _definitely_assigned(win)
+        if any(o not in da and o not in params for o in outs):
+            continue
+        # names written in the window, not bound before, read later only... covered by outs; names written and never
+        # used later stay local to the helper
+        if not params and not outs:
+            continue
+        hname = '_extracted_%s_%d' % (target.name.strip('_'), which)
+        ret = [ast.Return(value=ast.Tuple(elts=[ast.Name(id=o, ctx=ast.Load()) for o in outs], ctx=ast.Load())
+                          if len(outs) > 1 else ast.Name(id=outs[0], ctx=ast.Load()))] if outs else []
+        helper = ast.FunctionDef(name=hname, args=ast.arguments(posonlyargs=[], args=[ast.arg(arg=p_) for p_ in params], kwonlyargs=[],
+                                                                kw_defaults=[], defaults=[]),
+                                 body=win + ret, decorator_list=[], type_params=[])
+        call = ast.Call(func=ast.Name(id=hname, ctx=ast.Load()), args=[ast.Name(id=p_, ctx=ast.Load()) for p_ in params], keywords=[])
+        if outs:
+            tgt = ast.Tuple(elts=[ast.Name(id=o, ctx=ast.Store()) for o in outs], ctx=ast.Store()) if len(outs) > 1 else \
+                ast.Name(id=outs[0], ctx=ast.Store())
+            st = ast.Assign(targets=[tgt], value=call)
+        else:
+            st = ast.Expr(value=call)
+        target.body = body[:i] + [st] + body[i + size:]
+        # place the helper before the top-level statement that contains the function
+        top = qual.split('.')[0]
+        for k, tn in enumerate(tree.body):
+            if isinstance(tn, (ast.ClassDef, ast.FunctionDef)) and tn.name == top:
+                tree.body.insert(k, helper)
+                break
+        ast.fix_missing_locations(tree)
+        return ast.unparse(tree)
+    return None
+
+
+
+def extract_nested(src_text, qual, which):
+    """Extract a whole nested block (the body of a loop or of an if / else branch; which = 4: the largest, 5: the second
+    largest, 6: the third) into a new module-level private helper.  Names bound before the block (textually) that the block
+    touches are passed in, names the block binds that are read after it - or anywhere in an enclosing loop - are returned."""
+    tree = ast.parse(src_text)
+    target = _find(tree, qual)
+    if target is None or any(isinstance(n, (ast.Yield, ast.YieldFrom)) for n in ast.walk(target)):
+        return None
+    if target.decorator_list and any(not (isinstance(d, ast.Name) and d.id in ('staticmethod', 'property')) and
+                                     not (isinstance(d, ast.Attribute) and d.attr == 'setter') for d in target.decorator_list):
+        return None
+    a = target.args
+    fparams = [x.arg for x in a.posonlyargs + a.args + a.kwonlyargs] + ([a.vararg.arg] if a.vararg else []) + ([a.kwarg.arg] if a.kwarg else [])
+    blocks = []
+
+    def rec(owner, loops):
+        for field in ('body', 'orelse', 'finalbody'):
+            lst = getattr(owner, field, None)
+            if not (isinstance(lst, list) and lst and isinstance(lst[0], ast.stmt)):
+                continue
+            if owner is not target:
+                blocks.append((owner, field, lst, list(loops)))
+            for st in lst:
+                if isinstance(st, (ast.FunctionDef, ast.AsyncFunctionDef, ast.ClassDef)):
+                    continue
+                rec(st, loops + [st] if isinstance(st, (ast.For, ast.While)) else loops)
+        for h in getattr(owner, 'handlers', []) or []:
+            rec(h, loops)
+    rec(target, [])
+    blocks.sort(key=lambda b: -sum(len(ast.unparse(x)) for x in b[2]))
+    picked = 0
+    for owner, field, win, loops in blocks:
+        if isinstance(owner, ast.Try) and field == 'body':
+            continue                                   # exceptions raised in the block are caught around the call all the same; keep simple
+        sc = _Scope()
+        for s_ in win:
+            sc.visit(s_)
+        if sc.bad or _loose_jumps(win):
+            continue
+        lo, hi = win[0].lineno, max(getattr(x, 'end_lineno', x.lineno) for x in win)
+        inside = {id(x) for s_ in win for x in ast.walk(s_)}
+        outside_names = [x for x in ast.walk(target) if isinstance(x, ast.Name) and id(x) not in inside]
+        if any(isinstance(x, (ast.Global, ast.Nonlocal)) for x in ast.walk(target)):
+            continue
+        aug_out = [x.target.id for x in ast.walk(target) if isinstance(x, ast.AugAssign) and isinstance(x.target, ast.Name) and id(x.target) not in inside]
+        bound_before = set(fparams) | {x.id for x in outside_names if isinstance(x.ctx, ast.Store) and x.lineno < lo}
+        # loop targets of enclosing loops are bound before the body
+        for lp in loops:
+            if isinstance(lp, ast.For):
+                bound_before |= {x.id for x in ast.walk(lp.target) if isinstance(x, ast.Name)}
+        bound_later_in_loop = set()
+        reads_in_loops = set()
+        for lp in loops:
+            for x in ast.walk(lp):
+                if isinstance(x, ast.Name) and id(x) not in inside:
+                    if isinstance(x.ctx, ast.Store) and x.lineno > hi:
+                        bound_later_in_loop.add(x.id)
+                    if isinstance(x.ctx, ast.Load):
+                        reads_in_loops.add(x.id)
+            reads_in_loops |= {n_ for n_ in aug_out}
+        touched = list(dict.fromkeys(sc.reads + sc.writes))
+        if any(t in bound_later_in_loop and t not in bound_before for t in touched):
+            continue
+        da = _definitely_assigned(win)
+        params = [x for x in touched if x in bound_before]
+        reads_after = {x.id for x in outside_names if isinstance(x.ctx, ast.Load) and x.lineno > hi} | \
+            {n_ for n_ in aug_out}
+        # nested functions defined anywhere may read anything
+        for x in ast.walk(target):
+            if x is not target and isinstance(x, (ast.FunctionDef, ast.Lambda)) and id(x) not in inside:
+                reads_after |= {y.id for y in ast.walk(x) if isinstance(y, ast.Name)}
+        outs = [x for x in dict.fromkeys(sc.writes) if x in reads_after or x in reads_in_loops or (loops and x in sc.reads and x in bound_before)]
+        if any(o not in da and o not in params for o in outs):
+            continue
+        if not params and not outs:
+            continue
+        picked += 1
+        if picked < which - 3:
+            continue
+        hname = '_extracted_%s_%d' % (target.name.strip('_'), which)
+        ret = [ast.Return(value=ast.Tuple(elts=[ast.Name(id=o, ctx=ast.Load()) for o in outs], ctx=ast.Load())
+                          if len(outs) > 1 else ast.Name(id=outs[0], ctx=ast.Load()))] if outs else []
+        helper = ast.FunctionDef(name=hname, args=ast.arguments(posonlyargs=[], args=[ast.arg(arg=p_) for p_ in params], kwonlyargs=[],
+                                                                kw_defaults=[], defaults=[]),
+                                 body=list(win) + ret, decorator_list=[], type_params=[])
+        call = ast.Call(func=ast.Name(id=hname, ctx=ast.Load()), args=[ast.Name(id=p_, ctx=ast.Load()) for p_ in params], keywords=[])
+        if outs:
+            tgt = ast.Tuple(elts=[ast.Name(id=o, ctx=ast.Store()) for o in outs], ctx=ast.Store()) if len(outs) > 1 else \
+                ast.Name(id=outs[0], ctx=ast.Store())
+            st = ast.Assign(targets=[tgt], value=call)
+        else:
+            st = ast.Expr(value=call)
+        setattr(owner, field, [st])
+        top = qual.split('.')[0]
+        for k, tn in enumerate(tree.body):
+            if isinstance(tn, (ast.ClassDef, ast.FunctionDef)) and tn.name == top:
+                tree.body.insert(k, helper)
+                break
+        ast.fix_missing_locations(tree)
+        return ast.unparse(tree)
+    return None
+
+
 def transform(src_text, qual, kind):
     """kind in {'rename', 'flipcmp', 'swapif'}; returns new module text or None when nothing changes."""
     if kind == 'rename':
         return rename_locals(src_text, qual)
     if kind == 'renameparams':
         return rename_params(src_text, qual)
+    if kind.startswith('extract'):
+        w = int(kind[7:])
+        return extract_method(src_text, qual, w) if w <= 3 else extract_nested(src_text, qual, w)
     tree = ast.parse(src_text)
     target = _find(tree, qual)
     if target is None:
